@@ -55,9 +55,18 @@ def gen_fragment(rng, name, n_aps=1, nmin=1, nmax=7, parallel_to=None):
         for _ in range(200):
             host = rng.below(n)
             if parallel_to is not None:
-                vec, sign = parallel_to
+                vec, sign = parallel_to[0], parallel_to[1]
+                eps = parallel_to[2] if len(parallel_to) > 2 else 0.0
                 k = rng.choice([0.5, 1.0, 2.0, 0.25])
                 p = [coords[host][i] + sign * k * vec[i] for i in range(3)]
+                if eps:
+                    # nearly (anti)parallel: tilt the attachment vector by about `eps` radians
+                    r = [rng.uniform() - 0.5 for _ in range(3)]
+                    vv = sum(x * x for x in vec)
+                    dot = sum(a * b for a, b in zip(r, vec))
+                    perp = [a - dot / vv * b for a, b in zip(r, vec)]
+                    pn = math.sqrt(sum(x * x for x in perp)) or 1.0
+                    p = [p[i] + eps * k * math.sqrt(vv) * perp[i] / pn for i in range(3)]
             else:
                 p = [coords[host][i] + rng.range(-12, 12) / 8 for i in range(3)]
             dmin = min(math.dist(p, q) for q in coords)
@@ -348,7 +357,7 @@ def join_case(ctx, B, ml, fa, fb, args, variants, sample=False):
 
             def cb_geo(line, out, impl=coords):
                 cands = [G.model_array(part.strip(), "c", impl.shape) for part in out.split("|")]
-                hit = [k for k, m in enumerate(cands) if m is not None and G.close(impl, m, 1e-9 if not anti else 1e-7)]
+                hit = [k for k, m in enumerate(cands) if m is not None and G.close(impl, m, 1e-9 if (not anti and 1 + c > 1e-2) else 1e-7)]
                 if not hit:
                     ctx.disagree("join: coordinates differ from the model (every scan candidate)" if args["opt"] else
                                  "join: coordinates differ from the model", {"tag": tag, "request": line[:800]}, impl.tolist(), out[:800])
@@ -483,7 +492,7 @@ def run(ctx):
     ctx.rule = ("join: pairs of random 3-D fragments (1–7 atoms + attachment point, tree or one ring, atom order permuted so the attachment "
                 "point sits at any index, attached to any atom, bond types Single/Double/Aromatic/Triple, charge −2…2, mult 1…3) in random poses "
                 "on a 1/8 Å grid; requested length ∈ {None, 0.75, 1, 1.5, 2.25, 3}; optimize_rotation on/off; charge override ∈ {None, 0, 1, −2}; "
-                "mult override ∈ {None, 0, 1, 2, 3}; attachment vectors in general position, exactly parallel and exactly antiparallel; every call "
+                "mult override ∈ {None, 0, 1, 2, 3}; attachment vectors in general position, exactly parallel, exactly antiparallel and tilted off those by 1e-2…1e-7 rad; every call "
                 "made twice under different global numpy RNG states. combine: cores with 1–3 attachment points, attachment indices in ascending "
                 "order (as `core.attachment_points`) and in every other order (as with `-a` labels), through the real `_ml_assemble`. "
                 "Non-trivial: a fragment with more than one remaining atom (join) / at least two attachment points (combine); distinct by input.")
@@ -512,7 +521,7 @@ def run(ctx):
     njoin = 250 if q else 15000
     for i in range(njoin):
         ctx.check_deadline()
-        pose = rng.weighted([("general", 6), ("parallel", 2), ("antiparallel", 2)])
+        pose = rng.weighted([("general", 6), ("parallel", 2), ("antiparallel", 2), ("near-parallel", 2), ("near-antiparallel", 2)])
         fa = gen_fragment(rng, f"A{i}x")
         if pose == "general":
             fb = gen_fragment(rng, f"B{i}x")
@@ -520,7 +529,8 @@ def run(ctx):
             i1 = fa["ap"][0]
             n1 = neighbour_of(fa, i1)
             v1 = [fa["coords"][i1][k] - fa["coords"][n1][k] for k in range(3)]
-            fb = gen_fragment(rng, f"B{i}x", parallel_to=(v1, 1 if pose == "parallel" else -1))
+            eps = rng.choice([1e-2, 1e-3, 3e-4, 1e-4, 1e-5, 1e-6, 1e-7]) if pose.startswith("near") else 0.0
+            fb = gen_fragment(rng, f"B{i}x", parallel_to=(v1, -1 if pose.endswith("antiparallel") else 1, eps))
         join_case(ctx, B, ml, fa, fb, gen_args(rng, pose), variants, sample=(i < 2))
         if len(B.items) > 400:
             B.run(ctx)
